@@ -58,6 +58,9 @@ func mk(op string, s Sort, args ...*T) *T {
 	}
 	k := sb.String()
 	if t, ok := interned[k]; ok {
+		if t.S != s {
+			panic("term " + k + " used with sorts " + string(t.S) + " and " + string(s))
+		}
 		return t
 	}
 	t := &T{Op: op, A: args, S: s, str: k}
